@@ -6,17 +6,18 @@ Import ListNotations.
 Open Scope N_scope.
 
 (* ---------------- hashes are stable under pricing / promotion *)
-Lemma hashes_set_pricing p h pr : map hash (objs (set_pricing p h pr)) = map hash (objs p).
+Lemma hashes_set_pricing p h id pr : map hash (objs (set_pricing p h id pr)) = map hash (objs p).
 Proof.
   unfold set_pricing. destruct (find_obj h (objs p)) as [o|] eqn:E; auto.
-  destruct (negb (executable o) || _); auto. cbn [objs].
+  destruct ((oid o =? id) && (negb (executable o) || _)); auto. cbn [objs].
   destruct (find_obj_some _ _ _ E) as [_ Hh].
   assert (X := hashes_replace (set_price o (Some pr)) (objs p)). auto.
 Qed.
 
-Lemma hashes_promote p h : map hash (objs (fst (promote p h))) = map hash (objs p).
+Lemma hashes_promote p h id : map hash (objs (fst (promote p h id))) = map hash (objs p).
 Proof.
   unfold promote. destruct (find_obj h (objs p)) as [o|] eqn:E; auto.
+  destruct (negb (oid o =? id)); auto.
   destruct (executable o); auto. cbn [fst objs]. apply (hashes_replace (set_exec o true)).
 Qed.
 
@@ -219,8 +220,8 @@ Proof.
   - destruct (price o) as [pc|].
     + destruct (energy (payer pc) <? aget (cost p) (payer pc) + pcost pc).
       * specialize (IH p). destruct (publish p energy t) as [[p' pub] bad]. auto.
-      * pose proof (hashes_promote p (hash o)) as Hp.
-        destruct (promote p (hash o)) as [p1 ok]. cbn [fst] in Hp. destruct ok.
+      * pose proof (hashes_promote p (hash o) (oid o)) as Hp.
+        destruct (promote p (hash o) (oid o)) as [p1 ok]. cbn [fst] in Hp. destruct ok.
         -- specialize (IH p1). destruct (publish p1 energy t) as [[p' pub] bad]. cbn [fst] in *. congruence.
         -- rewrite IH. auto.
     + specialize (IH p). destruct (publish p energy t) as [[p' pub] bad]. auto.
